@@ -1496,7 +1496,9 @@ theorem normalize_doc (tab : Nat) (s : Str) (hp : s.all docCh = true) (hl : inkE
     · have : c = '\n' := by simpa using hc
       subst this; decide
   rw [Normalize.normalize_eq, h1, h2, h3]
-  exact (wsLinesAux_inkE s).1 false false hl
+  -- the scan starts at a line start (`some 0`) since the repair a0e7e3c of F-C09-1
+  have := (wsLinesAux_inkE s).2 0 (by simpa using hl)
+  simpa using this
 
 theorem goahead_no_amp (e : Bool) (s : Str) (h : '&' ∉ s) : ∀ f, s.length ≤ f → Extract.goahead e f s = (s, []) := by
   induction s with
